@@ -184,11 +184,45 @@ type PathResult struct {
 
 // Explore runs body on every path (depth-first over the decisions).
 func (m *Machine) Explore(maxPaths int, setup func(p *Path), body func(p *Path) Val) ([]PathResult, error) {
+	return m.ExploreFrom(m.BaseHeap, m.BaseNext, maxPaths, setup, body)
+}
+
+// Prepare runs f concretely (no forking allowed) on a copy of the base heap
+// and returns the resulting heap, to be used as the start of an exploration.
+func (m *Machine) Prepare(f func(p *Path)) (map[int]Val, int, error) {
+	p := &Path{M: m, Heap: make(map[int]Val, len(m.BaseHeap)+64), Next: m.BaseNext, Ghost: map[string]Val{}, NoSafety: true}
+	for k, v := range m.BaseHeap {
+		p.Heap[k] = v
+	}
+	var err error
+	func() {
+		defer func() {
+			if r := recover(); r != nil {
+				switch e := r.(type) {
+				case pathEnd:
+					err = fmt.Errorf("preparation stopped: %s", e.reason)
+				case Unsupported:
+					err = e
+				default:
+					panic(r)
+				}
+			}
+		}()
+		f(p)
+	}()
+	if err == nil && len(p.Dec) > 0 {
+		err = fmt.Errorf("preparation forked on symbolic data")
+	}
+	return p.Heap, p.Next, err
+}
+
+// ExploreFrom explores from an explicit initial heap.
+func (m *Machine) ExploreFrom(base map[int]Val, baseNext int, maxPaths int, setup func(p *Path), body func(p *Path) Val) ([]PathResult, error) {
 	var results []PathResult
 	var prefix []bool
 	for {
-		p := &Path{M: m, Heap: make(map[int]Val, len(m.BaseHeap)+16), Next: m.BaseNext, Ghost: map[string]Val{}}
-		for k, v := range m.BaseHeap {
+		p := &Path{M: m, Heap: make(map[int]Val, len(base)+16), Next: baseNext, Ghost: map[string]Val{}}
+		for k, v := range base {
 			p.Heap[k] = v
 		}
 		p.Dec = append([]bool{}, prefix...)
